@@ -236,3 +236,37 @@ var cursorWriters = map[string]map[string]internalPanic{
 		"(*lib/stringlib/pattern.patternMatcher).match":     {1, "back-reference (%1..%9): advances by the length of an earlier capture after comparing it; at most len(s) per pattern item"},
 	},
 }
+
+// releaseTable: Release* sites outside the constructor/destructor pairs, keyed
+// by (outermost) function, with the number of sites and the require they pair with.
+var releaseTable = map[string]internalPanic{
+	"(*runtime.GoCont).RunInThread":                {2, "gives back what NewGoCont required: sizeof(GoCont), and sizeof(Value)*c.nArgs <= sizeof(Value)*f.nArgs (only when args were allocated); only on the no-error path"},
+	"(*runtime.Runtime).ParseLuaChunk":             {1, "error path: gives back the LinearRequire(4, len(source)) of the same call (statSize = len(source))"},
+	"(*runtime.Runtime).ParseLuaExp":               {1, "error path: gives back the LinearRequire(4, len(source)) of the same call"},
+	"(*runtime.Runtime).compileLuaStat":            {3, "statSize is handed over by the caller (ParseLuaChunk's require), constsSize is required by this function; balance checked path-sensitively by clause (1)"},
+	"(*runtime.Runtime).CompileAndLoadLuaChunkOrExp": {1, "gives back the unit size returned (and required) by compileLuaStat"},
+	"(*runtime.Runtime).CompileAndLoadLuaChunk":    {1, "gives back the unit size returned (and required) by compileLuaStat"},
+	"lib/base.load":                                {3, "the chunk bytes were charged by LinearRequire(10, len) as they were gathered; buf.Len() is the sum of the pieces charged so far"},
+	"lib/base.dofile":                              {1, "gives back loadChunk's LinearRequire(10, len(chunk))"},
+	"lib/base.loadfile":                            {1, "gives back loadChunk's LinearRequire(10, len(chunk))"},
+	"lib/stringlib.Format":                         {1, "tmpMem accumulates what this function itself required for temporaries (note: the deferred argument is evaluated at defer time; see DESIGN 'seen but not claimed')"},
+	"lib/utf8lib.char":                             {1, "returns the unused tail of the RequireBytes(maxLen) made at the top of the same function (bufLen <= maxLen)"},
+}
+
+// newStrTable: fresh strings accepted without a dominating charge, keyed by
+// function, with count and reason.
+var newStrTable = map[string]internalPanic{
+	"(*runtime.Error).AddContext":     {1, "error path: position prefix (source:line) plus a message that is already held"},
+	"(*runtime.LuaCont).RunInThread":  {2, "1- and 2-byte string literals inlined in the opcode (ToStr1/ToStr2): constant size"},
+	"(*runtime.breader).readConst":    {1, "readString consumes budget for the length before allocating; UnmarshalConst's caller charges what was used (LinearRequire(10, used))"},
+	"lib/base.tostring":               {1, "default representation '<type name>: 0x...': the name is a held string, the rest is constant-size"},
+	"lib/debuglib.gethook":            {1, "hook mask string: at most three characters"},
+	"lib/debuglib.traceback":          {1, "(*Runtime).Traceback charges RequireBytes for every piece it appends (inside the callee)"},
+	"lib/runtimelib.context__index":   {1, "names of at most four compliance flags: constant-bounded"},
+	"lib/stringlib.UnpackString":      {1, "'z' option: one unit of budget is consumed per byte scanned before the copy; the caller charges what was used"},
+	"lib/stringlib.gsub":              {1, "charged piecewise: RequireBytes precedes each WriteString of the builder (subject pieces here, replacements in the replacement callback)"},
+}
+
+// tableSetCallers: functions other than (*Runtime).SetTable allowed to call
+// (*Table).Set, with the reason.
+var tableSetCallers = map[string]string{}
